@@ -248,7 +248,13 @@ class Monitors:
             parts = vlib.unhx(e[6]).split(b"-")
             if q is not None and q.cmd == "l" and len(parts) == 4:
                 try:
-                    self.tunip[q.user] = struct.unpack(">I", bytes(int(x) for x in parts[1].split(b".")))[0]
+                    ip = struct.unpack(">I", bytes(int(x) for x in parts[1].split(b".")))[0]
+                    self.tunip[q.user] = ip
+                    mask = (0xffffffff << (32 - cfg["netbits"])) & 0xffffffff
+                    if ip & mask != cfg["myip"] & mask or ip in (cfg["myip"], cfg["myip"] & mask, (cfg["myip"] & mask) | (~mask & 0xffffffff)):
+                        self.bad("C18", "session %s was given the tunnel address %08x (server %08x/%d): outside the subnet or the server's / network / broadcast address" % (q.user, ip, cfg["myip"], cfg["netbits"]))
+                    if any(v == ip for k, v in self.tunip.items() if k != q.user):
+                        self.bad("C18", "session %s was given the tunnel address %08x which another session holds" % (q.user, ip))
                 except Exception:
                     pass
 
@@ -313,12 +319,14 @@ class Monitors:
             for e in hans + raws:
                 self.stats["tun_routed"] += 1
                 if not owners:
-                    self.bad("C04", "tun packet for %s sent although no live logged-in session owns that address" % (("%08x" % dst) if dst is not None else None))
+                    for pr in ("C04", "C18"):
+                        self.bad(pr, "tun packet for %s sent although no live logged-in session owns that address" % (("%08x" % dst) if dst is not None else None))
                     continue
                 u = owners[0]
                 held = [prev[u]["host"]]
                 if cfg["check_ip"] and host_of(e[1]) != host_of(prev[u]["host"]) and not any(k[0] == e[1] for k in self.pending):
-                    self.bad("C04", "tun packet for session %d sent to %s, not to that session's address %s" % (u, e[1], prev[u]["host"]))
+                    for pr in ("C04", "C18"):
+                        self.bad(pr, "tun packet for session %d sent to %s, not to that session's address %s" % (u, e[1], prev[u]["host"]))
             for u, d in slots.items():
                 if u in prev and stream_state(d)[1:] != stream_state(prev[u])[1:] and u not in owners and u not in swept:
                     self.bad("C04", "tun packet for %s changed the downstream of session %d which does not own that address" % (("%08x" % dst) if dst is not None else None, u))
